@@ -62,6 +62,12 @@ func init() {
 			termOps[fmt.Sprintf("%s%d", op, b)] = func(s sym.Sort, args []*sym.Term) *sym.Term { return foldIntOp(op, b, args[0], args[1]) }
 		}
 	}
+	termOps["len"] = func(s sym.Sort, args []*sym.Term) *sym.Term {
+		if n, ok := sym.BytesLen(args[0]); ok {
+			return sym.ConstI(int64(n))
+		}
+		return sym.App(sym.Int, "len", args...)
+	}
 	termOps["byteat"] = func(s sym.Sort, args []*sym.Term) *sym.Term { return ByteAt(args[0], args[1]) }
 	termOps["sub"] = func(s sym.Sort, args []*sym.Term) *sym.Term { return SubBytes(args[0], args[1], args[2]) }
 	termOps["cat"] = func(s sym.Sort, args []*sym.Term) *sym.Term { return CatBytes(args...) }
